@@ -75,7 +75,7 @@ def startup_family(ctx, tag=""):
     their outputs (outside the build-loop protocol), every trace ends with the check.  Compared: outcome
     and dump after every transaction; inv_b on every prefix; I4 (inv_succeeded_b) right after every
     check_consistency; the strict consistency check of the implementation after the final repair."""
-    n, length = ctx.scale((8, 90), (40, 150))
+    n, length = ctx.scale((10, 90), (40, 150))
     traces = _traces(ctx, n, length, tag + "startup-", startup=True)
     ctx.startup_traces = traces
     cc = c09_cases
@@ -129,8 +129,10 @@ def _trace_builders(tr):
     cc = c09_cases
     s0 = "(init_st 3)"
     return [
-        lambda it: cc.cq_trace_c(tr, 3, it),
-        lambda it: f"all_prefixes_ok_t inv_b {s0} {cc.cq_ops_c(tr, it)}",
+        # the comparison with the implementation runs the TOP layer of the model (step_op_x: the older
+        # layers + the re-attachment trigger and validate's flag of 84081f2)
+        lambda it: cc.cq_trace_x(tr, 3, it),
+        lambda it: f"all_prefixes_ok_x inv_b {s0} {cc.cq_ops_x(tr, it)}",
         lambda it: f"all_prefixes_ok_t inv_succeeded_b {s0} {cc.cq_ops_c(tr, it)}",
         lambda it: f"all_prefixes_ok_t inv_treefile_b {s0} {cc.cq_ops_c(tr, it)}",
         lambda it: f"protocol_ok_run_t {s0} {cc.cq_ops_c(tr, it)}",
@@ -149,7 +151,7 @@ def correspondence(ctx, n_length=None, tag=""):
     n, length = n_length or ctx.scale((36, 100), (150, 160))
     traces = _traces(ctx, n, length, tag)
     ctx.traces = traces
-    header = e2.HEADER.replace("model.GraphTree.", "model.GraphTree model.GraphInv model.GraphTreeInv.")
+    header = HEADER_C
     builders = []
     for tr, cnt, strict in traces:
         for k, v in cnt.items():
@@ -163,7 +165,7 @@ def correspondence(ctx, n_length=None, tag=""):
     ctx.sample({"trace_prefix": [list(map(str, t[:2])) for t in traces[0][0][:8]]})
     fixed = [(n, tr) for n, tr in fixed_traces(ctx).items() if tr is not None]
     fbad = c09_cases.run_cases(ctx, "e2fixed", header,
-                               [(lambda it, tr=tr: c09_cases.cq_trace_c(tr, 3, it)) for _, tr in fixed], chunk=8, jobs=1)
+                               [(lambda it, tr=tr: c09_cases.cq_trace_x(tr, 3, it)) for _, tr in fixed], chunk=8, jobs=1)
     for b in fbad:
         ctx.add_failure("correspondence", "E2:fixed", f"E2:fixed:{fixed[b][0]}",
                         f"model and implementation disagree on the fixed witness trace '{fixed[b][0]}'",
@@ -179,7 +181,7 @@ def correspondence(ctx, n_length=None, tag=""):
     for b in bad[:3]:
         tr = [t for t in traces[b][0] if t[0][0] != "dispatch_error"]
         it = c09_cases.Interner()
-        term = f"first_bad_t 0 (init_st 3) {c09_cases.cq_items_c(tr, it)}"
+        term = f"first_bad_x 0 (init_st 3) {c09_cases.cq_items_x(tr, it)}"
         v = common.eval_terms(ctx, "e2diag", header + "\n".join(it.defs) + "\n", [term])
         import re
         m = re.search(r"Some (\d+)", v[0] or "")
